@@ -474,6 +474,7 @@ namespace c09
     // ------------------------------------------------------------ the per-value checks
     // Fw supplies: name(); enc(v) -> std::string; dec<T>(p, n) -> T (public one-shot API);
     //              struct Reader { Reader(p, n); template<T> void get(T&); size_t pos(); }
+    //              extra(v, enc) -> nullptr or what went wrong with the front end's other entry points
     template <class Fw, class T> void check_value(const char *tname, const T &v, const T &w, int placement)
     {
         char key[180], cls[110];
@@ -553,6 +554,15 @@ namespace c09
             }
             VF_OK("enc(a) ++ enc(b) decodes to a then b, cursor after a == |enc(a)|");
         }
+        // front-end specific entry points (caller-buffer writer, std::string overloads, caller storage)
+        snprintf(cls, sizeof cls, "%s:other-entry-points", tname);
+        vf::cls(cls);
+        if (const char *what = Fw::extra(v, enc))
+        {
+            snprintf(key, sizeof key, "entry-point:%s", tname);
+            vf::fail(key, "value=%s (%zu encoded bytes): %s", shown(v).c_str(), enc.size(), what);
+        }
+        VF_OK("the other entry points of the front end produce / accept the same bytes");
         if (enc.size() > 65535)
             VF_OK("values whose encoding exceeds 64 KiB");
         VF_MAX("largest encoding (bytes)", enc.size());
